@@ -130,6 +130,9 @@ def check_dim(S, rep, dim):
     except RaisedInAnalysed as ex:
         rep.ob("C11.a", lab, False, "constructor raises %s" % ex, key="C11.a|%s|ctor" % lab)
         return
+    prec = [p for p in init_pr if getattr(p, "pkind", "") == "precision"]
+    rep.ob("C11.d", lab + " operator assembled in the working precision", not prec, prec[0].msg + " at " + str(prec[0].where) if prec else "no fixed-precision conversion",
+           key="C11.d|%s|ctor-precision|%s" % (lab, prec[0].msg[:60] if prec else ""), nontrivial=False)
     sizes = {a: sym(n) for a, n in zip(AX[dim], SIZES[dim])}
     inv_dx2 = const(1) / (sym("dx") * sym("dx"))
     # ---- (a) the operator table: matrices handed to the eigen-solver
